@@ -40,8 +40,10 @@ EXPLANATION = (
     "update_signature_args/return are checked call site by call site. Not decided: what inspect.signature reports for string "
     "or NewType annotations."
 )
-T_ = lambda n: S("traced:" + n)  # noqa: E731
-A_ = lambda n: S("source-annotation:" + n)  # noqa: E731
+# the traced type at position p1 and the source annotation at position p2 are class objects that are false as truth values
+# (their metaclass defines __len__ / __bool__): "is there a type?" must not be asked with `if typ:`
+T_ = lambda n: S("traced:" + n, truth=(n != "p1"))  # noqa: E731
+A_ = lambda n: S("source-annotation:" + n, truth=(n != "p2"))  # noqa: E731
 
 
 def expected_arg(strategy: S, annotated: bool, traced: bool, receiver: bool, name: str) -> V:
@@ -125,10 +127,12 @@ def rule_return(ctx: Ctx, repo: Repo) -> None:
     ps = fi.positional_params()
     rows = 0
     Y, T = S("traced:yield"), S("traced:return")
+    # class objects that are false as truth values (a metaclass with __len__ / __bool__): types like any other
+    FALSY_R, FALSY_Y = S("traced:Registry", truth=False), S("traced:EmptyEnum", truth=False)
     for strategy in (REPLICATE, IGNORE, OMIT):
         for annotated in (False, True):
-            for rt in (K(None), NONE_T, T):
-                for yt in (K(None), Y, NONE_T):
+            for rt in (K(None), NONE_T, T, FALSY_R):
+                for yt in (K(None), Y, NONE_T, FALSY_Y):
                     src = A_("ret") if annotated else EMPTY
                     s_in = sig([param("a", A_("a"))], src)
                     res = StubScenario(repo, "update_signature_return").result({ps[0]: s_in, ps[1]: rt, ps[2]: yt, ps[3]: strategy})
@@ -184,6 +188,43 @@ def rule_optional(ctx: Ctx, repo: Repo) -> None:
     # (a parameter `foo: T = None` of every core type; the stub must provide every name it uses)
     from . import c11 as _c11
     _c11.rule_pipeline_core(ctx, repo, "R-C13.3")
+
+
+def rule_optional_kinds(ctx: Ctx, repo: Repo) -> None:
+    fi = repo.fn(ST, "render_parameter")
+    p0 = fi.positional_params()[0]
+    # every KIND of annotation a source can carry (the Optional wrap is not a matter of what the annotation is): a class, a
+    # string, Any, a generic, a forward reference, a NewType (an object, not a class), a type variable, a generated TypedDict
+    from . import anno_model as AM
+    from .codec_model import ANY as C_ANY, INT as C_INT, NONE_T as C_NONE, anon_td as c_anon_td, cls as c_cls, gen as c_gen
+    kinds = [
+        ("a class", c_cls("pkg.mod", "User")), ("a string", K("User")), ("Any", C_ANY), ("a generic", c_gen("List", C_INT)),
+        ("a forward reference", AM.fwd("User")), ("a NewType", AM.newtype("UserId", "pkg.mod", C_INT)),
+        ("a type variable", R("typevar", __name__=K("T"), __module__=K("pkg.mod"))), ("a generated TypedDict", c_anon_td({"a": C_INT})),
+    ]
+    n_k = 0
+    for what, anno in kinds:
+        for default in (K(None), K(3), EMPTY):
+            seen_a: List[V] = []
+            sc = AM.AnnoScenario(repo, ST, "render_parameter")
+            base_h = sc.ri.call_hook
+            def hook_k(call, fname, fval, a, kw, st, _r=seen_a, _b=base_h):
+                if fname == "render_annotation":
+                    _r.append(st.freeze(a[0]))
+                    return K("ANNO")
+                return _b(call, fname, fval, a, kw, st)
+            sc.ri.call_hook = hook_k
+            k_r, _ = sc.result({p0: param("x", anno, default)})
+            n_k += 1
+            wrapped = [x for x in seen_a if isinstance(x, R) and x.kind == "generic" and x.fields["origin"] == K("Union") and C_NONE in x.fields["args"].v and anno in x.fields["args"].v]
+            lab = f"annotation is {what}, default {'None' if default == K(None) else 'absent' if default == EMPTY else default.v}"
+            if default == K(None):
+                ctx.check(k_r == "return" and len(seen_a) == 1 and len(wrapped) == 1, "R-C13.3", fi.fq,
+                          "an annotated parameter whose default is None is shown as Optional[annotation], whatever kind of annotation it is",
+                          construct=f"{lab}: {k_r}, rendered {[AM.py_repr(x)[:60] if isinstance(x, R) else str(x) for x in seen_a]}")
+            else:
+                ctx.check(k_r == "return" and seen_a == [anno], "R-C13.3", fi.fq, "with any other default (or none) the annotation is shown as it is", construct=f"{lab}: {k_r}, rendered {[str(x)[:60] for x in seen_a]}")
+    ctx.floor("R-C13.3", "annotation kind x default scenarios of render_parameter", n_k, 20)
 
 
 def argparse_table(repo: Repo) -> List[Tuple[str, bool, Tuple[str, ...], Dict[str, V]]]:
@@ -313,6 +354,11 @@ def run(ctx: Ctx, repo: Repo, tier: str) -> None:
     ctx.attempt(rule_args, ctx, repo)
     ctx.attempt(rule_return, ctx, repo)
     ctx.attempt(rule_optional, ctx, repo)
+    ctx.attempt(rule_optional_kinds, ctx, repo)
+    # "every unannotated traced one receives the traced type": the traced return / yield type is what comes back from the store
+    # (absent stays absent, a type stays that type - also a class object that is false as a truth value) - R-C08.3
+    from . import c08 as _c08
+    ctx.attempt(_c08.rule_trace_round_trip, ctx, repo)
     ctx.attempt(rule_flags, ctx, repo)
     ctx.attempt(rule_forwarding, ctx, repo)
     # the traced types reach the signature update for every parameter of the signature (C10's rule on the same function)
